@@ -118,6 +118,11 @@ def generate(rng, tier):
             kind, suffix = "zst", rng.choice([".zst", ".log.zst"])
         cases.append({"maxlen": maxlen, "content": content.hex(), "kind": kind, "suffix": suffix,
                       "transport": "server" if rng.random() < 0.4 else "serverless"})
+    # a consumer that stalls for several seconds before it reads (the reader then reaches end of file
+    # long after it started: the periodic truncation check has fired by then); unterminated last line
+    big = b"".join(b"%06d %s\n" % (i, b"z" * 200) for i in range(3000)) + b"LAST-LINE-WITHOUT-NEWLINE"
+    for tr in (["serverless"] if tier == "quick" else ["serverless", "server"]):
+        cases.append({"maxlen": 1048576, "content": big.hex(), "kind": "plain", "suffix": ".log", "transport": tr, "stall_s": 4})
     if tier == "thorough":
         # exhaustive small scope: all contents of length <= 5 over {a, \n, ., 0xAC}, maxlen in {1,2,3}
         import itertools
@@ -153,6 +158,20 @@ def run_impl(cases, tier):
         raise RuntimeError("mkfile failed: %s" % infos)
 
     def one(c):
+        if c.get("stall_s"):
+            import time as _t
+            cmd = [os.path.join(srv.BIN, "dcat"), "--cfg", cfgs[c["maxlen"]], "--plain", "--files", c["_path"]]
+            if c["transport"] == "server":
+                s_ = servers[c["maxlen"]]
+                cmd = [os.path.join(srv.BIN, "dcat"), "--cfg", "none", "--servers", "127.0.0.1:%d" % s_.port, "--trustAllHosts",
+                       "--key", env.key, "--user", "root", "--plain", "--files", c["_path"]]
+            p = subprocess.Popen(cmd, stdin=subprocess.DEVNULL, stdout=subprocess.PIPE, stderr=subprocess.PIPE, env=env.client_env(), cwd=env.dir)
+            _t.sleep(c["stall_s"])
+            try:
+                out, err = p.communicate(timeout=120)
+            except subprocess.TimeoutExpired:
+                p.kill(); out, err = p.communicate()
+            return {"rc": p.returncode, "out": out.hex(), "err": err[-300:].decode("latin1")}
         if c["transport"] == "server":
             rc, out, err = env.client("dcat", ["--plain", "--files", c["_path"]], servers=[servers[c["maxlen"]]], timeout=120)
         else:
